@@ -274,7 +274,7 @@ def run(run):
                             filt.append(x["n"])
             own, _chain = IC.owner(F, f, ue[0])
             conds = [cd for n_, cds in T.paths_to(own["body"], lambda y: y is ue[0]) for cd in cds if not (cd[0] == "arm" and (cd[1].get("ms", "").startswith("ForLoop") or T.is_call(T.peel(cd[1]["e"]), "next")))]
-            exits = [x for x in T.walk(own["body"]) if x.get("k") in ("Break", "Continue", "Return") and not x.get("x") and x.get("ds") != "ForLoop"]
+            exits = [x for x in T.walk(own["body"]) if x.get("k") in ("Break", "Continue", "Return") and x.get("ds") not in ("ForLoop", "WhileLoop")]
             ok = outgoing and not filt and not conds and not exits
         run.check("R3", "update_node|every-outgoing-edge-updated", ok, "update_node must call update_edge for every outgoing edge of the node (graph.edges(node), no filter, no early exit)", F.loc(f["body"]))
         # update_edge
